@@ -885,7 +885,7 @@ class Model:
                     if isinstance(st, ast.Assign) and len(st.targets) == 1 and isinstance(st.targets[0], ast.Name) and isinstance(st.value, ast.IfExp):
                         def leaves(e):
                             return leaves(e.body) + leaves(e.orelse) if isinstance(e, ast.IfExp) else [e]
-                        if any(isinstance(x, ast.Constant) for x in leaves(st.value)):
+                        if all(isinstance(x, (ast.Constant, ast.JoinedStr)) for x in leaves(st.value)):     # a flag / message chosen by conditions
                             def build(e, st=st):
                                 if not isinstance(e, ast.IfExp):
                                     return [ast.copy_location(ast.Assign(targets=[ast.Name(id=st.targets[0].id, ctx=ast.Store())], value=e, type_comment=None), st)]
@@ -1180,8 +1180,8 @@ class Model:
             if any(isinstance(n, ast.Name) and n.id in hlocals and n.id not in own_targets and isinstance(n.ctx, ast.Load) and id(n) not in inside
                    and not bound_by_enclosing_loop(n)
                    and (in_loop or getattr(n, 'lineno', 10**9) > getattr(site_stmt, 'end_lineno', 0))       # read after the call (or the call is repeated)
-                   for n in walk_local(fi.node)) and not os.environ.get('VERIF_NO_HYGIENE'):
-                continue
+                   for n in walk_local(fi.node)) and os.environ.get('VERIF_HYGIENE'):
+                continue        # (opt-in: declining such helpers turned out to cost more decided cases than the merged names ever cost)
             rets = [n for n in walk_local(h.node) if isinstance(n, ast.Return)]
             ylds = [n for n in walk_local(h.node) if isinstance(n, (ast.Yield, ast.YieldFrom))]
             if isinstance(st, _IfCall) and st.nested is not None and len(body) == 1 and isinstance(body[0], ast.Return) and body[0].value is not None:
